@@ -550,7 +550,9 @@ func judge(sc *Scn, fail func(sig, msg string)) {
 		fail("adapt-error", fmt.Sprintf("a Caddyfile written according to the documented syntax does not adapt: %v\n%s", err, cf))
 		return
 	}
-	for i := 0; i < 5; i++ {
+	// (Go starts the iteration of a small map at one of 8 offsets: an order that depends on it
+	// differs between two runs with probability ~0.2, so 40 repetitions miss it once in 200)
+	for i := 0; i < 40; i++ {
 		again, _, err2 := adapter.Adapt([]byte(cf), map[string]any{"filename": "Caddyfile"})
 		if err2 != nil || string(again) != string(out) {
 			fail("adapt-not-deterministic", fmt.Sprintf("adapting the same Caddyfile twice gives different JSON\n%s\n%s\n%s", cf, out, again))
